@@ -2,3 +2,8 @@ import Props.C08
 #print axioms Webauthn.Props.C08.returned_key_decodes
 #print axioms Webauthn.Props.C08.chain
 #print axioms Webauthn.Props.C08.cross
+#print axioms Webauthn.Props.C08.returned_key_is_sent_key
+#print axioms Webauthn.Props.C08.returned_key_fixed_point
+#print axioms Webauthn.reencode_stable
+#print axioms Webauthn.Cbor.dec_wf
+#print axioms Webauthn.Cbor.dec_enc
